@@ -9,7 +9,7 @@ from ..domains import chain_arms
 from ..model import AnalysisError, FunctionInfo
 from ..report import Ob, bad, ok, unresolved
 from . import rule
-from .common import find_class_chains, method_calls
+from .common import find_class_chains, method_calls, see_through
 from .disp import BACK, FRONT, _codegen, _dispatcher
 
 # Python's evaluation order of the child fields of the expression classes
@@ -334,23 +334,37 @@ def lower5(ctx) -> List[Ob]:
     tr = back.find_method("transform")
     cg = _codegen(ctx)
     preds = []
-    # (1) top-level loop: `if <pred>: continue`
-    for lp in [n for n in A.walk_no_nested(tr.node) if isinstance(n, ast.For)]:
-        if "concealed_region_view" not in A.unparse(lp.iter):
-            continue
-        names = [x.id for x in ast.walk(lp.target) if isinstance(x, ast.Name)]
-        for s in lp.body:
-            if isinstance(s, ast.If) and s.body and isinstance(s.body[0], ast.Continue):
-                preds.append(("transform", _norm_pred(s.test, names[-1]), ctx.where(tr, s)))
-            elif isinstance(s, ast.If) and not s.orelse and s is lp.body[-1] and isinstance(s.test, ast.UnaryOp) and isinstance(s.test.op, ast.Not) and method_calls(ast.Module(s.body, []), "codegen"):
-                # canonical form of the guard clause: `if not <pred>: <emit>`
-                preds.append(("transform", _norm_pred(s.test.operand, names[-1]), ctx.where(tr, s)))
+    # (1) explicit loops over the region view (top level in transform, per region in codegen or a helper
+    #     nested in it): `if <pred>: continue` or its normal form `if not <pred>: <emit>`
+    def _view_iter(f_, it_: ast.AST) -> bool:
+        if "concealed_region_view" in A.unparse(it_):
+            return True
+        for n_ in ast.walk(it_):
+            if isinstance(n_, ast.Name):
+                v_ = see_through(ctx, f_, n_)
+                if v_ is not None and v_ is not n_ and "concealed_region_view" in A.unparse(v_):
+                    return True
+        return False
+
+    walkers = [tr] + [f for f in ctx.prog.functions if f.parent_fn is cg or f is cg]
+    for f in walkers:
+        for lp in [n for n in A.walk_no_nested(f.node) if isinstance(n, ast.For)]:
+            if not _view_iter(f, lp.iter):
+                continue
+            names = [x.id for x in ast.walk(lp.target) if isinstance(x, ast.Name)]
+            who_ = "transform" if f is tr else f.qualname
+            for s in lp.body:
+                if isinstance(s, ast.If) and s.body and isinstance(s.body[0], ast.Continue):
+                    preds.append((who_, _norm_pred(s.test, names[-1]), ctx.where(f, s)))
+                elif isinstance(s, ast.If) and not s.orelse and s is lp.body[-1] and isinstance(s.test, ast.UnaryOp) and isinstance(s.test.op, ast.Not) and method_calls(ast.Module(s.body, []), "codegen"):
+                    # canonical form of the guard clause: `if not <pred>: <emit>`
+                    preds.append((who_, _norm_pred(s.test.operand, names[-1]), ctx.where(f, s)))
     # (2) per-region view: comprehension with `if not (<pred>)`
     for f in ctx.prog.functions:
         if f.parent_fn is cg or f is cg:
             for comp in [n for n in A.walk_no_nested(f.node) if isinstance(n, (ast.GeneratorExp, ast.ListComp))]:
                 for g in comp.generators:
-                    if "concealed_region_view" in A.unparse(g.iter) and isinstance(g.target, ast.Name):
+                    if _view_iter(f, g.iter) and isinstance(g.target, ast.Name):
                         for cond in g.ifs:
                             if isinstance(cond, ast.UnaryOp) and isinstance(cond.op, ast.Not):
                                 preds.append((f.qualname, _norm_pred(cond.operand, g.target.id), ctx.where(f, comp)))
@@ -410,10 +424,31 @@ def lower6(ctx) -> List[Ob]:
                     if isinstance(anc, ast.If) and isinstance(anc.test, ast.Compare) and isinstance(anc.test.ops[0], ast.NotIn):
                         R = A.unparse(anc.test.comparators[0])
                         # R grows from a work-list seeded with the entry
-                        seeds = [s for s in A.walk_no_nested(m.node) if isinstance(s, ast.Assign) and repr(entry) in A.unparse(s.value).replace('"', "'")]
+                        seeds = [s for s in A.walk_no_nested(m.node) if isinstance(s, (ast.Assign, ast.AnnAssign)) and s.value is not None and repr(entry) in A.unparse(s.value).replace('"', "'")]
                         adds = [c for c in method_calls(m.node, "add") if A.unparse(c.func.value) == R]
                         if seeds and adds:
                             reason = f"only blocks outside '{R}' are deleted and '{R}' is the closure of a work-list seeded with the entry {entry!r}"
+            # (b') the same, with the filter in the iterable: for k in [k for k in self if k not in R]: pop(k)
+            if reason is None and kname:
+                for anc in A.ancestors(d):
+                    if isinstance(anc, ast.For) and A.unparse(anc.target) == kname:
+                        it_ = anc.iter
+                        if isinstance(it_, ast.Call) and isinstance(it_.func, ast.Name) and it_.func.id in ("list", "tuple", "sorted") and it_.args:
+                            it_ = it_.args[0]
+                        if isinstance(it_, ast.Name):
+                            ds_ = [x for x in cfg.reaching_defs(anc, it_.id) if x.stmt is not None]
+                            vals_ = [x.stmt.value for x in ds_ if isinstance(x.stmt, (ast.Assign, ast.AnnAssign)) and x.stmt.value is not None]
+                            it_ = vals_[0] if len(ds_) == 1 and len(vals_) == 1 else it_
+                        if isinstance(it_, (ast.ListComp, ast.GeneratorExp, ast.SetComp)) and len(it_.generators) == 1:
+                            g_ = it_.generators[0]
+                            tv_ = A.unparse(g_.target)
+                            for c_ in g_.ifs:
+                                if isinstance(c_, ast.Compare) and len(c_.ops) == 1 and isinstance(c_.ops[0], ast.NotIn) and A.unparse(c_.left) == tv_ and A.unparse(it_.elt) == tv_:
+                                    R = A.unparse(c_.comparators[0])
+                                    seeds = [s_ for s_ in A.walk_no_nested(m.node) if isinstance(s_, (ast.Assign, ast.AnnAssign)) and s_.value is not None and repr(entry) in A.unparse(s_.value).replace('"', "'")]
+                                    adds = [c2 for c2 in method_calls(m.node, "add") if A.unparse(c2.func.value) == R]
+                                    if seeds and adds:
+                                        reason = f"only blocks outside '{R}' are deleted (filter in the iterable) and '{R}' is the closure of a work-list seeded with the entry {entry!r}"
             if reason:
                 out.append(ok("LOWER-6", m.qualname, key, where, reason))
             else:
@@ -867,7 +902,7 @@ def lower14(ctx) -> List[Ob]:
         if not fn.module.name.endswith("ast_transforms"):
             continue
         for st in A.walk_no_nested(fn.node):
-            if isinstance(st, ast.Assign) and len(st.targets) == 1 and isinstance(st.targets[0], ast.Subscript) and "jump_targets" in A.unparse(st.targets[0].value) and fn.name.startswith("prune"):
+            if isinstance(st, ast.Assign) and len(st.targets) == 1 and isinstance(st.targets[0], ast.Subscript) and isinstance(st.targets[0].value, ast.Attribute) and st.targets[0].value.attr in ("jump_targets", "_jump_targets") and fn.name.startswith("prune"):
                 sites.append((fn, st))
     fns = []
     for fn, st in sites:
